@@ -33,11 +33,16 @@ class Conflict:
         self.a, self.b, self.why, self.where = a, b, why, where
 
 
-class Kinds:
-    def __init__(self, ctx, encoder="common._components_to_path", decoder="common._path_components", path_class="common.ObjectPath"):
-        from .sem import module_region
+class QualInfer:
+    """Generic unification engine: subclasses provide the seeds and a few hooks (constants, special calls, arithmetic)."""
+    opaque_modules = frozenset()
+    analysed_modules = None       # None = every module that is not opaque
+    keys_have_kinds = True        # subscript indices are of the container's key kind (False: plain integer positions)
+    arithmetic = False            # sums, differences and ordering comparisons relate quantities of one kind
+
+    def __init__(self, ctx):
         self.ctx = ctx
-        self.prog = prog = ctx.prog
+        self.prog = ctx.prog
         self.parent = {}
         self.const = {}        # rep -> (kind, origin text)
         self.children = {}     # rep -> {label: node}
@@ -50,16 +55,49 @@ class Kinds:
         self.parses = []       # (fi, ast node, receiver node, method)
         self.n_nodes = 0
         self.analysed = []
-        self.encoder = prog.func(encoder)
-        self.decoder = prog.func(decoder)
-        self.path_cls = prog.cls(path_class)
-        self.skip = {f.qual for f in module_region(prog, self.encoder)} | {f.qual for f in module_region(prog, self.decoder)}
-        # modules whose values are not object names or paths (value boxes, numerics, logging): calls into them are opaque
-        self.opaque_modules = {"types", "timestamp", "scaling", "thermocouples", "utils", "log", "version"}
+        self.skip = set()
         self._fields = None
+        self.setup()
         self._seed()
         self._generate()
         self._solve_pending()
+
+    # hooks -------------------------------------------------------------------------------------------------
+    def setup(self):
+        pass
+
+    def is_analysed(self, fi):
+        """is this function part of the analysis (its body generates constraints, calls into it bind arguments)"""
+        if fi.qual in self.skip or fi.module.name in self.opaque_modules:
+            return False
+        return self.analysed_modules is None or fi.module.name in self.analysed_modules
+
+    def _seed(self):
+        pass
+
+    def constant(self, gen, e):
+        """node for a constant expression, or None"""
+        return None
+
+    def special_call(self, gen, c, args):
+        """-> (handled, node) for calls with a meaning of their own in this analysis"""
+        return False, None
+
+    def binop(self, gen, e, a, b):
+        """node for an arithmetic expression, or None"""
+        return None
+
+    def constructed(self, gen, c, rcls, res):
+        """a class instance was created"""
+        return
+
+    def solve_item(self, item, rounds):
+        """deferred constraint of the subclass -> True when resolved"""
+        return False
+
+    def receiver_class(self, recv):
+        """class of the object a node denotes, when the analysis knows it"""
+        return None
 
     # ---------------------------------------------------------------- union-find
     def new(self, desc=None):
@@ -184,25 +222,10 @@ class Kinds:
             return self.named(("r", m.qual), "result of property %s" % m.qual)
         return self.named(("f", owner.qual, attr), "field %s.%s" % (owner.qual, attr))
 
-    # ---------------------------------------------------------------- seeds
-    def _seed(self):
-        enc, dec = self.encoder, self.decoder
-        w = enc.where()
-        self.seed(self.named(("r", enc.qual), "result of the path encoder"), PATH, "result of the encoder %s" % enc.qual, w)
-        for p in enc.params:
-            self.seed(self.named(("v", enc.qual, p), "parameter %s of the encoder" % p), NAME, "parameter `%s` of the encoder %s" % (p, enc.qual), w)
-        if enc.node.args.vararg is not None:
-            v = self.named(("v", enc.qual, enc.node.args.vararg.arg))
-            self.seed(self.child(v, "k"), NAME, "components given to the encoder %s" % enc.qual, w)
-        w = dec.where()
-        for p in dec.params[:1]:
-            self.seed(self.named(("v", dec.qual, p), "parameter %s of the decoder" % p), PATH, "parameter `%s` of the decoder %s" % (p, dec.qual), w)
-        self.seed(self.child(self.named(("r", dec.qual), "result of the path decoder"), "k"), NAME, "components yielded by the decoder %s" % dec.qual, w)
-
     # ---------------------------------------------------------------- constraint generation
     def _generate(self):
         for fi in sorted(self.prog.functions.values(), key=lambda f: f.qual):
-            if fi.qual in self.skip or fi.module.name in self.opaque_modules:
+            if not self.is_analysed(fi):
                 continue
             self.analysed.append(fi.qual)
             Gen(self, fi).run()
@@ -210,29 +233,23 @@ class Kinds:
     def _solve_pending(self):
         progress = True
         rounds = 0
-        while progress and rounds < 20:
+        while (progress or rounds < 3) and rounds < 20:
             progress = False
             rounds += 1
             rest = []
             for item in self.pending:
-                if item[0] == "str":
-                    _t, res, arg, where = item
-                    k = self.kind(arg)
-                    if k == OBJ:
-                        self.seed(res, PATH, "str() of an ObjectPath", where)
-                        progress = True
-                    elif k in (NAME, PATH):
-                        self.union(res, arg, "str() of a string", where)
+                if item[0] != "attr":
+                    if self.solve_item(item, rounds):
                         progress = True
                     else:
                         rest.append(item)
                 elif item[0] == "attr":
                     _t, res, recv, attr, cands, where = item
-                    k = self.kind(recv)
-                    if k == OBJ:
-                        n = self.field_node(self.path_cls, attr)
+                    rc = self.receiver_class(recv)
+                    if rc is not None:
+                        n = self.field_node(rc, attr)
                         if n is not None:
-                            self.union(res, n, "attribute .%s of an ObjectPath" % attr, where)
+                            self.union(res, n, "attribute .%s of a %s" % (attr, rc.name), where)
                         progress = True
                     else:
                         kinds = {self.kind(self.field_node(c, attr)) for c in cands}
@@ -247,6 +264,79 @@ class Kinds:
                         else:
                             rest.append(item)
             self.pending = rest
+
+
+class Kinds(QualInfer):
+    opaque_modules = frozenset({"types", "timestamp", "scaling", "thermocouples", "utils", "log", "version"})
+
+    def __init__(self, ctx, encoder="common._components_to_path", decoder="common._path_components", path_class="common.ObjectPath"):
+        self._enc, self._dec, self._pc = encoder, decoder, path_class
+        super().__init__(ctx)
+
+    def setup(self):
+        from .sem import module_region
+        prog = self.prog
+        self.encoder = prog.func(self._enc)
+        self.decoder = prog.func(self._dec)
+        self.path_cls = prog.cls(self._pc)
+        # the encoder and the decoder themselves are string manipulation: trusted here, examined by PT1/PT3
+        self.skip = {f.qual for f in module_region(prog, self.encoder)} | {f.qual for f in module_region(prog, self.decoder)}
+
+    def constant(self, gen, e):
+        if e.value == "/":
+            n = self.new("literal '/'")
+            self.seed(n, PATH, "the literal '/' (path of the root object)", gen.where(e))
+            return n
+        return None
+
+    def special_call(self, gen, c, args):
+        f = c.func
+        if isinstance(f, ast.Name) and f.id == "str" and len(args) == 1 and args[0] is not None and f.id not in gen.scope \
+                and self.prog.resolve_name(gen.fi.module, f.id) is None:
+            res = self.new("`%s`" % unparse(c)[:40])
+            self.pending.append(("str", res, args[0], gen.where(c)))
+            return True, res
+        return False, None
+
+    def binop(self, gen, e, a, b):
+        if isinstance(e.op, (ast.BitOr, ast.Sub, ast.BitAnd, ast.BitXor)) and a is not None and b is not None:
+            self.union(a, b, "set operation `%s`" % unparse(e)[:40], gen.where(e))     # set algebra keeps the element kind
+            return a
+        return None
+
+    def constructed(self, gen, c, rcls, res):
+        if rcls is not None and self.path_cls in self.prog.mro(rcls):
+            self.seed(res, OBJ, "an ObjectPath instance", gen.where(c))
+
+    def solve_item(self, item, rounds):
+        if item[0] == "str":
+            _t, res, arg, where = item
+            k = self.kind(arg)
+            if k == OBJ:
+                self.seed(res, PATH, "str() of an ObjectPath", where)
+                return True
+            if k in (NAME, PATH):
+                self.union(res, arg, "str() of a string", where)
+                return True
+        return False
+
+    def receiver_class(self, recv):
+        return self.path_cls if self.kind(recv) == OBJ else None
+
+    # ---------------------------------------------------------------- seeds
+    def _seed(self):
+        enc, dec = self.encoder, self.decoder
+        w = enc.where()
+        self.seed(self.named(("r", enc.qual), "result of the path encoder"), PATH, "result of the encoder %s" % enc.qual, w)
+        for p in enc.params:
+            self.seed(self.named(("v", enc.qual, p), "parameter %s of the encoder" % p), NAME, "parameter `%s` of the encoder %s" % (p, enc.qual), w)
+        if enc.node.args.vararg is not None:
+            v = self.named(("v", enc.qual, enc.node.args.vararg.arg))
+            self.seed(self.child(v, "k"), NAME, "components given to the encoder %s" % enc.qual, w)
+        w = dec.where()
+        for p in dec.params[:1]:
+            self.seed(self.named(("v", dec.qual, p), "parameter %s of the decoder" % p), PATH, "parameter `%s` of the decoder %s" % (p, dec.qual), w)
+        self.seed(self.child(self.named(("r", dec.qual), "result of the path decoder"), "k"), NAME, "components yielded by the decoder %s" % dec.qual, w)
 
 
 class Gen:
@@ -316,7 +406,9 @@ class Gen:
         elif isinstance(s, ast.AnnAssign) and s.value is not None:
             self.assign(s.target, self.expr(s.value), s)
         elif isinstance(s, ast.AugAssign):
-            self.expr(s.value)
+            v = self.expr(s.value)
+            if K.arithmetic and isinstance(s.op, (ast.Add, ast.Sub)) and isinstance(s.target, ast.Name) and v is not None:
+                K.union(self.var(s.target.id), v, "`%s`" % unparse(s)[:50], self.where(s))
         elif isinstance(s, ast.Return):
             if s.value is not None:
                 v = self.expr(s.value)
@@ -411,7 +503,7 @@ class Gen:
     def assign_node(self, t, node, s):
         K = self.K
         if isinstance(t, ast.Name):
-            n = self.define(t.id, getattr(s, "lineno", 0))
+            n = self.scope[t.id] if t.id in self.scope else self.define(t.id, getattr(s, "lineno", 0))
             K.union(n, node, "unpacked into `%s`" % t.id, self.where(s))
         elif isinstance(t, (ast.Tuple, ast.List)):
             for i, e in enumerate(t.elts):
@@ -432,7 +524,8 @@ class Gen:
         if id(node) not in self.seen_access:
             self.seen_access.add(id(node))
             K.accesses.append((self.fi, node, k, K.child(base, "k"), unparse(node)[:60]))
-        K.union(K.child(base, "k"), k, "key of `%s`" % unparse(node)[:50], self.where(node))
+        if K.keys_have_kinds or not isinstance(node, ast.Subscript):
+            K.union(K.child(base, "k"), k, "key of `%s`" % unparse(node)[:50], self.where(node))
 
     # -- expressions: -> node or None
     def attr_node(self, e, store=False):
@@ -455,11 +548,7 @@ class Gen:
         if e is None:
             return None
         if isinstance(e, ast.Constant):
-            if e.value == "/":
-                n = K.new("literal '/'")
-                K.seed(n, PATH, "the literal '/' (path of the root object)", self.where(e))
-                return n
-            return None
+            return K.constant(self, e)
         if isinstance(e, ast.Name):
             r = self.prog.resolve_name(self.fi.module, e.id) if e.id not in self.scope else None
             if e.id in self.scope or not (r and r[0] in ("class", "func", "module")):
@@ -498,6 +587,7 @@ class Gen:
             return n
         if isinstance(e, (ast.List, ast.Set)):
             n = K.new("collection `%s`" % unparse(e)[:40])
+            K.union(K.child(n, "k"), K.child(n, "v"), "elements of a sequence", self.where(e))
             for x in e.elts:
                 v = self.expr(x.value if isinstance(x, ast.Starred) else x)
                 if v is not None:
@@ -531,6 +621,7 @@ class Gen:
                 if vv is not None:
                     K.union(K.child(n, "v"), vv, "value of `%s`" % unparse(e)[:40], self.where(e))
             else:
+                K.union(K.child(n, "k"), K.child(n, "v"), "elements of a sequence", self.where(e))
                 v = self.expr(e.elt)
                 if v is not None:
                     K.union(K.child(n, "k"), v, "element of `%s`" % unparse(e)[:40], self.where(e))
@@ -556,15 +647,15 @@ class Gen:
                 right = self.expr(c)
                 if isinstance(op, (ast.In, ast.NotIn)):
                     self.access(e, left, right)
-                elif isinstance(op, (ast.Eq, ast.NotEq)) and left is not None and right is not None:
+                elif (isinstance(op, (ast.Eq, ast.NotEq)) or K.arithmetic) and left is not None and right is not None:
                     K.union(left, right, "compared in `%s`" % unparse(e)[:50], self.where(e))
                 left = right
             return None
         if isinstance(e, ast.BinOp):
             a, b = self.expr(e.left), self.expr(e.right)
-            if isinstance(e.op, (ast.BitOr, ast.Sub, ast.BitAnd, ast.BitXor)) and a is not None and b is not None:
-                K.union(a, b, "set operation `%s`" % unparse(e)[:40], self.where(e))     # set algebra keeps the element kind
-                return a
+            r = K.binop(self, e, a, b)
+            if r is not None:
+                return r
             return None
         if isinstance(e, ast.UnaryOp):
             self.expr(e.operand)
@@ -596,10 +687,9 @@ class Gen:
             args = [self.expr(a) for a in c.args]
             for k in c.keywords:
                 self.expr(k.value)
-            if f.id == "str" and len(args) == 1 and args[0] is not None:
-                res = K.new("`%s`" % unparse(c)[:40])
-                K.pending.append(("str", res, args[0], self.where(c)))
-                return res
+            handled, node = K.special_call(self, c, args)
+            if handled:
+                return node
             if f.id in ("set", "list", "tuple", "sorted", "frozenset", "reversed", "iter") and args and args[0] is not None:
                 return args[0]
             if f.id == "next" and args and args[0] is not None:
@@ -618,6 +708,13 @@ class Gen:
                 return n
             if f.id in ("min", "max") and len(args) == 1 and args[0] is not None:
                 return K.child(args[0], "k")
+            if f.id in ("min", "max") and len(args) > 1:
+                known = [a for a in args if a is not None]
+                for a in known[1:]:
+                    K.union(known[0], a, "operands of `%s`" % unparse(c)[:40], self.where(c))
+                return known[0] if known else None
+            if f.id in ("int", "float", "abs") and len(args) == 1:
+                return args[0]
             return None
         # methods of containers and strings
         if isinstance(f, ast.Attribute):
@@ -628,6 +725,9 @@ class Gen:
                 args = [self.expr(a) for a in c.args]
                 for k in c.keywords:
                     self.expr(k.value)
+                handled, node = K.special_call(self, c, [recv] + args)
+                if handled:
+                    return node
                 if recv is None:
                     return None
                 if f.attr in CONTAINER_READ and args:
@@ -668,7 +768,7 @@ class Gen:
         # package callees
         args = [(a, self.expr(a.value if isinstance(a, ast.Starred) else a)) for a in c.args]
         kws = [(k.arg, self.expr(k.value)) for k in c.keywords]
-        targets = [(t, k) for t, k in targets if t.module.name not in K.opaque_modules]
+        targets = [(t, k) for t, k in targets if K.is_analysed(t) or t.qual in K.skip]
         if not targets:
             return None
         # unrelated by-name candidates: no constraint
@@ -723,6 +823,83 @@ class Gen:
                 K.union(res, r, "result of %s" % t.qual, self.where(c))
         if is_ctor:
             res = K.new("`%s`" % unparse(c)[:40])
-            if rcls is not None and K.path_cls in prog.mro(rcls):
-                K.seed(res, OBJ, "an ObjectPath instance", self.where(c))
+            K.constructed(self, c, rcls, res)
         return res
+
+
+# ======================================================================================================================
+ROWS, WIDTH, BYTES = "ROWS", "WIDTH", "BYTES"
+
+
+class Dims(QualInfer):
+    """Roles of the quantities that describe DAQmx raw buffers: ROWS (number of values of a buffer / object), WIDTH (bytes per
+    row) and BYTES (their product).  Seeds: `number_values` attributes are ROWS, the elements of `raw_data_widths` are WIDTHs, and
+    the shape given to ndarray.reshape is (ROWS, WIDTH).  rows * width is BYTES, bytes // width is ROWS; sums, differences and
+    comparisons relate like quantities."""
+    analysed_modules = frozenset({"daqmx"})
+    keys_have_kinds = False
+    arithmetic = True
+
+    def is_analysed(self, fi):
+        # the DAQmx module, plus the row reader it hands (width, rows) to; element counts of typed reads are another quantity
+        return fi.module.name == "daqmx" or fi.qual == "base_segment.read_interleaved_segment_bytes"
+
+    def _seed(self):
+        for ci in self.fields().get("number_values", ()):
+            n = self.field_node(ci, "number_values")
+            if n is not None:
+                self.seed(n, ROWS, "%s.number_values (values per chunk)" % ci.qual, "%s:%d" % (ci.module.relpath, ci.node.lineno))
+        for ci in self.fields().get("raw_data_widths", ()):
+            n = self.field_node(ci, "raw_data_widths")
+            if n is not None:
+                self.union(self.child(n, "k"), self.child(n, "v"), "elements of the widths array", "%s:%d" % (ci.module.relpath, ci.node.lineno))
+                self.seed(self.child(n, "k"), WIDTH, "elements of %s.raw_data_widths (bytes per row of each buffer)" % ci.qual,
+                          "%s:%d" % (ci.module.relpath, ci.node.lineno))
+
+    def special_call(self, gen, c, args):
+        f = c.func
+        if isinstance(f, ast.Attribute) and f.attr == "reshape" and c.args:
+            shape = c.args[0] if len(c.args) == 1 and isinstance(c.args[0], ast.Tuple) else (ast.Tuple(elts=list(c.args), ctx=ast.Load()) if len(c.args) == 2 else None)
+            if shape is not None and len(shape.elts) == 2:
+                for e, kind in zip(shape.elts, (ROWS, WIDTH)):
+                    n = gen.expr(e)
+                    if n is not None:
+                        self.seed(n, kind, "%s of the shape given to reshape" % ("first (rows)" if kind == ROWS else "second (bytes per row)"), gen.where(c))
+                return True, None
+        return False, None
+
+    def binop(self, gen, e, a, b):
+        if isinstance(e.op, (ast.Add, ast.Sub)):
+            if a is not None and b is not None:
+                self.union(a, b, "`%s`" % unparse(e)[:40], gen.where(e))
+            return a if a is not None else b
+        if isinstance(e.op, ast.Mult) and isinstance(e.left, (ast.List, ast.Tuple)):
+            return a                     # [x] * n: a sequence of the same kind of element
+        if isinstance(e.op, ast.Mult) and isinstance(e.right, (ast.List, ast.Tuple)):
+            return b
+        if isinstance(e.op, (ast.Mult, ast.FloorDiv, ast.Div)) and a is not None and b is not None:
+            res = self.new("`%s`" % unparse(e)[:40])
+            self.pending.append(("arith", "mul" if isinstance(e.op, ast.Mult) else "div", res, a, b, gen.where(e), unparse(e)[:50]))
+            return res
+        return None
+
+    def solve_item(self, item, rounds):
+        if item[0] != "arith":
+            return False
+        _t, op, res, a, b, where, text = item
+        ka, kb, kr = self.kind(a), self.kind(b), self.kind(res)
+        if op == "mul":
+            if {ka, kb} == {ROWS, WIDTH}:
+                self.seed(res, BYTES, "`%s`: rows x width" % text, where)
+                return True
+            if ka in (ROWS, WIDTH) and kb == ka:
+                self.conflicts.append(Conflict(a, b, "`%s` multiplies two %s quantities" % (text, ka), where))
+                return True
+        else:
+            if ka == BYTES and kb == WIDTH:
+                self.seed(res, ROWS, "`%s`: bytes // width" % text, where)
+                return True
+            if ka == BYTES and kb == ROWS:
+                self.seed(res, WIDTH, "`%s`: bytes // rows" % text, where)
+                return True
+        return False
